@@ -214,6 +214,11 @@ func c07Judge(b []byte) (outcome, key, desc string, dec *SnapshotWithTopological
 		fmt.Sprintf("accepted %d bytes differ from the %d-byte encoding of the decoded snapshot (and from that minus its suffix)", len(b), len(enc)), dec
 }
 
+type c07Finding struct {
+	ord, desc, how string
+	b              []byte
+}
+
 func c07Replay(b []byte, how string) map[string]any {
 	return map[string]any{"how": how, "len": len(b), "bytes_hex": hex.EncodeToString(b),
 		"call": "common.UnmarshalVersionedSnapshot(bytes); compare with VersionedMarshal() of the result"}
@@ -384,6 +389,8 @@ func TestMC_C07(t *testing.T) {
 	extAlphabet := verifmc.Pick(c, []byte{0x00, 0x01}, []byte{0x00, 0x01, 0xff})
 	var mu sync.Mutex
 	var byteCases, byteAccepted int64
+	findBest := map[string]c07Finding{} // per key the failing case with the smallest order: independent of worker timing
+	findCount := map[string]int64{}
 	c.ParallelN(len(seeds), "byte-level mutation of seeds", func(_, si int) {
 		sd := seeds[si]
 		n := len(sd.b)
@@ -395,7 +402,13 @@ func TestMC_C07(t *testing.T) {
 			cases++
 			if key != "" {
 				out = "VIOLATING-" + key
-				report(key, desc+" ["+how()+"]", b, how())
+				ord := fmt.Sprintf("%05d|%s|%06d|%x", si, kind, pos, b[max(0, len(b)-9):])
+				mu.Lock()
+				findCount[key]++
+				if old, ok := findBest[key]; !ok || ord < old.ord {
+					findBest[key] = c07Finding{ord: ord, desc: desc + " [" + how() + "]", b: append([]byte{}, b...), how: how()}
+				}
+				mu.Unlock()
 			}
 			if strings.HasPrefix(out, "accept") {
 				acc++
@@ -459,6 +472,19 @@ func TestMC_C07(t *testing.T) {
 			c.Sample(map[string]any{"seed": si, "len": n, "seed_hex": verifmc.Hex(sd.b), "mutants": cases, "accepted_mutants": acc})
 		}
 	})
+	{
+		keys := make([]string, 0, len(findBest))
+		for k := range findBest {
+			keys = append(keys, k)
+		}
+		sort.Strings(keys)
+		for _, k := range keys {
+			f := findBest[k]
+			for n := int64(0); n < findCount[k]; n++ { // one call per failing case keeps the known-finding case count honest
+				report(k, f.desc, f.b, f.how)
+			}
+		}
+	}
 	c.Set("byte_level_cases", byteCases)
 	c.Set("byte_level_accepted", byteAccepted)
 	c.Set("byte_level_outcome_counts", byteOutcomes)
